@@ -7,7 +7,19 @@ from gcv.model import norm
 COLOURS = ["White", "WhiteWeak", "Gray", "Black"]
 CSHORT = {"White": "W", "WhiteWeak": "WW", "Gray": "G", "Black": "B"}
 CLONG = {v: k for k, v in CSHORT.items()}
-PHASES = ["Mark", "Sweep", "Sleep", "Drop"]
+PHASES = ["Mark", "Sweep", "Sleep", "Drop"]      # names only; indices are read from the analysed program
+
+
+def variant_name(prog, defp, idx):
+    """Name of variant `idx` of enum `defp` in the analysed program (declaration order may change)."""
+    a = prog.all_adts.get(defp)
+    if a is None or idx >= len(a["variants"]):
+        return "?"
+    return a["variants"][idx]["name"]
+
+
+def phase_name(prog, v):
+    return variant_name(prog, "context::Phase", v[2]) if v[0] == "adt" else "?"
 
 OPT = "core::option::Option"
 
@@ -114,7 +126,7 @@ class GcModel:
         q = lambda v: tuple(x[1] for x in v[3][0][1]) if v[0] == "adt" and v[3][0][0] == "vec" else "?"
         rn = self.ctx_get(st, "root_needs_trace")
         return {
-            "phase": PHASES[ph[2]] if ph[0] == "adt" else "?",
+            "phase": phase_name(self.prog, ph),
             "root_needs_trace": rn[1] if rn[0] == "i" else "?",
             "gray": q(self.ctx_get(st, "gray")),
             "gray_again": q(self.ctx_get(st, "gray_again")),
@@ -183,7 +195,7 @@ class GcModel:
         def set_color(ip, st, args, info):
             oid, o = _hdr(ip, st, args[0], "set_color")
             c = args[1]
-            new = CSHORT[COLOURS[c[2]]]
+            new = CSHORT[variant_name(m.prog, "types::GcColor", c[2])]
             st.event("set_color", oid, o["colour"], new)
             o["colour"] = new
             return [(st, "ret", UNIT)]
